@@ -70,7 +70,12 @@ class BlockNormalizer(Visitor):
                 new_statements.append(block)
         else:
             new_statements = list(self.iter_unroll_blocks(visited_statements))
-        new_block = BlockStatement(statements=new_statements)
+        # A subcircuit block stays a (normalized) subcircuit block
+        new_block = BlockStatement(
+            statements=new_statements,
+            subcircuit=obj.subcircuit,
+            iterations=obj.iterations,
+        )
         return new_block
 
     def iter_chunk_blocks(self, statements):
@@ -110,9 +115,10 @@ class UnrollIterator(Visitor):
         yield obj
 
     def visit_BlockStatement(self, obj):
-        if obj.parallel:
+        if obj.parallel or obj.subcircuit:
             # This is ok in iter_unroll_blocks but would be an error
-            # in iter_chunk_blocks.
+            # in iter_chunk_blocks. A subcircuit block is kept whole so
+            # that its annotation survives.
             yield obj
         else:
             for stmt in obj.statements:
